@@ -130,7 +130,7 @@ MStep(A, T, RO, refused, tok) ==
          \* b = b.to(a.baseunits) - before numpy itself may fail on a Decimal
          IF ~Convertible(OUnit(T, y), OUnit(T, x)) THEN T
          ELSE LET T1 == IF Fx("arg_converted_in_place")
-                        THEN (IF OUnit(T, x) = UNone THEN T ELSE ConvCopyStr(T, y, OUnit(T, x)))   \* b.value(a.units())
+                        THEN ConvCopyBU(T, y, T.objs[x].b)        \* b._convert(b.magnitude, b.baseunits, a.baseunits)
                         ELSE ToBU(T, y, T.objs[x].b)
               IN IF refused THEN T1 ELSE ResShareBU(T1, RO, T1.objs[x].b)
     [] op \in {"radd", "rsub"} ->
